@@ -5,7 +5,7 @@
    [f xs] on top of the untouched remainder (every position, also below 15) with depth >= 16. *)
 From Coq Require Import ZArith List Bool Arith Lia String.
 From MV Require Import Base.Field Core.Op Vm.Pure Vm.PureProps Vm.State Vm.Step Vm.StepProps
-  Gen.AsmGen Asm.SpecDefs Asm.Instr Asm.StackInstr Asm.FieldInstr Asm.U32Instr Asm.ImmInstr.
+  Gen.AsmGen Asm.SpecDefs Asm.Instr Asm.StackInstr Asm.FieldInstr Asm.U32Instr Asm.ImmInstr Asm.HintDefs Asm.MoreInstr.
 Import ListNotations.
 Open Scope Z_scope.
 
@@ -138,6 +138,134 @@ Theorem c05_interpreter_uses_pure : forall o s,
   is_pure o = true -> exec_op o s = lift_pure s (pure_op o (stk s)).
 Proof. exact exec_op_pure. Qed.
 Print Assumptions c05_interpreter_uses_pure.
+
+
+(* ---- further instructions (Asm/MoreInstr.v): word comparison, field ordering, extension-field
+   arithmetic, the remaining u32 arithmetic / comparison / bitwise forms, shifts and rotations by a
+   variable amount (for every amount 0..31), pow2 (for every exponent 0..63) ------------------------ *)
+Local Open Scope string_scope.
+Theorem c05_eqw : instr_spec (ops_of "eqw") 8 no_pre
+  (fun xs => (if (nz xs 7 =? nz xs 3) && (nz xs 6 =? nz xs 2) && (nz xs 5 =? nz xs 1) && (nz xs 4 =? nz xs 0) then 1 else 0)%Z
+             :: firstn 8 xs).
+Proof. exact eqw_ok. Qed.
+Print Assumptions c05_eqw.
+Theorem c05_neq : instr_spec (ops_of "neq") 2 no_pre (fun xs => [if (nz xs 1 =? nz xs 0)%Z then 0 else 1]).
+Proof. exact neq_ok. Qed.
+Print Assumptions c05_neq.
+Theorem c05_assert_eqw : instr_spec (ops_of "assert_eqw") 8
+  (fun xs => if (nz xs 0 =? nz xs 4) && (nz xs 1 =? nz xs 5) && (nz xs 2 =? nz xs 6) && (nz xs 7 =? nz xs 3) then None
+             else Some (PAssert 0))%Z
+  (fun _ => []).
+Proof. exact assert_eqw_ok. Qed.
+Print Assumptions c05_assert_eqw.
+Theorem c05_ext2add : instr_spec (ops_of "ext2add") 4 no_pre
+  (fun xs => [fadd (nz xs 2) (nz xs 0); fadd (nz xs 3) (nz xs 1)]).
+Proof. exact ext2add_ok. Qed.
+Print Assumptions c05_ext2add.
+Theorem c05_ext2neg : instr_spec (ops_of "ext2neg") 2 no_pre (fun xs => [fneg (nz xs 0); fneg (nz xs 1)]).
+Proof. exact ext2neg_ok. Qed.
+Print Assumptions c05_ext2neg.
+Theorem c05_ext2sub : instr_spec (ops_of "ext2sub") 4 no_pre
+  (fun xs => [fsub (nz xs 2) (nz xs 0); fsub (nz xs 3) (nz xs 1)]).
+Proof. exact ext2sub_ok. Qed.
+Print Assumptions c05_ext2sub.
+Theorem c05_xor : instr_spec (ops_of "xor") 2 (fun xs => bin_or (nz xs 1) (bin_or (nz xs 0) None))
+  (fun xs => [if (nz xs 1 =? 1) || (nz xs 0 =? 1) then (if (nz xs 1 =? 1) && (nz xs 0 =? 1) then 0 else 1) else 0])%Z.
+Proof. exact xor_ok. Qed.
+Print Assumptions c05_xor.
+Theorem c05_u32wrapping_add3 : instr_spec_g (ops_of "u32wrapping_add3") 3 g3 no_pre
+    (fun xs => [(nz xs 2 + nz xs 1 + nz xs 0) mod TWO32]).
+Proof. exact u32wrapping_add3_ok. Qed.
+Print Assumptions c05_u32wrapping_add3.
+Theorem c05_u32wrapping_madd : instr_spec_g (ops_of "u32wrapping_madd") 3 g3 no_pre
+    (fun xs => [(nz xs 1 * nz xs 0 + nz xs 2) mod TWO32]).
+Proof. exact u32wrapping_madd_ok. Qed.
+Print Assumptions c05_u32wrapping_madd.
+Theorem c05_u32overflowing_sub : instr_spec_g (ops_of "u32overflowing_sub") 2 g2 no_pre
+    (fun xs => [if (nz xs 1 <? nz xs 0)%Z then 1 else 0; (nz xs 1 - nz xs 0) mod TWO32]).
+Proof. exact u32overflowing_sub_ok. Qed.
+Print Assumptions c05_u32overflowing_sub.
+Theorem c05_u32wrapping_sub : instr_spec_g (ops_of "u32wrapping_sub") 2 g2 no_pre
+    (fun xs => [(nz xs 1 - nz xs 0) mod TWO32]).
+Proof. exact u32wrapping_sub_ok. Qed.
+Print Assumptions c05_u32wrapping_sub.
+Theorem c05_u32lt : instr_spec_g (ops_of "u32lt") 2 g2 no_pre (fun xs => [if (nz xs 1 <? nz xs 0)%Z then 1 else 0]).
+Proof. exact u32lt_ok. Qed.
+Print Assumptions c05_u32lt.
+Theorem c05_u32gt : instr_spec_g (ops_of "u32gt") 2 g2 no_pre (fun xs => [if (nz xs 0 <? nz xs 1)%Z then 1 else 0]).
+Proof. exact u32gt_ok. Qed.
+Print Assumptions c05_u32gt.
+Theorem c05_u32lte : instr_spec_g (ops_of "u32lte") 2 g2 no_pre (fun xs => [if (nz xs 1 <=? nz xs 0)%Z then 1 else 0]).
+Proof. exact u32lte_ok. Qed.
+Print Assumptions c05_u32lte.
+Theorem c05_u32gte : instr_spec_g (ops_of "u32gte") 2 g2 no_pre (fun xs => [if (nz xs 0 <=? nz xs 1)%Z then 1 else 0]).
+Proof. exact u32gte_ok. Qed.
+Print Assumptions c05_u32gte.
+Theorem c05_u32min : instr_spec_g (ops_of "u32min") 2 g2 no_pre (fun xs => [Z.min (nz xs 1) (nz xs 0)]).
+Proof. exact u32min_instr_ok. Qed.
+Print Assumptions c05_u32min.
+Theorem c05_u32max : instr_spec_g (ops_of "u32max") 2 g2 no_pre (fun xs => [Z.max (nz xs 1) (nz xs 0)]).
+Proof. exact u32max_instr_ok. Qed.
+Print Assumptions c05_u32max.
+Theorem c05_u32test : instr_spec (ops_of "u32test") 1 no_pre
+  (fun xs => [if (nz xs 0 <? TWO32)%Z then 1 else 0; nz xs 0]).
+Proof. exact u32test_ok. Qed.
+Print Assumptions c05_u32test.
+Theorem c05_u32testw : instr_spec (ops_of "u32testw") 4 no_pre
+  (fun xs => (if (nz xs 3 <? TWO32) && (nz xs 2 <? TWO32) && (nz xs 1 <? TWO32) && (nz xs 0 <? TWO32) then 1 else 0)%Z
+             :: firstn 4 xs).
+Proof. exact u32testw_ok. Qed.
+Print Assumptions c05_u32testw.
+Theorem c05_u32assertw : instr_spec (ops_of "u32assertw") 4
+  (fun xs => if negb (u32max_ok (nz xs 0)) then Some (PNotU32 (nz xs 0) 0)
+             else if negb (u32max_ok (nz xs 1)) then Some (PNotU32 (nz xs 1) 0)
+             else if negb (u32max_ok (nz xs 2)) then Some (PNotU32 (nz xs 2) 0)
+             else if negb (u32max_ok (nz xs 3)) then Some (PNotU32 (nz xs 3) 0) else None)
+  (fun xs => xs).
+Proof. exact u32assertw_ok. Qed.
+Print Assumptions c05_u32assertw.
+Theorem c05_u32or : instr_spec_g (ops_of "u32or") 2 g2 no_pre (fun xs => [Z.lor (nz xs 1) (nz xs 0)]).
+Proof. exact u32or_ok. Qed.
+Print Assumptions c05_u32or.
+Theorem c05_u32not : instr_spec_g (ops_of "u32not") 1 g1 no_pre (fun xs => [4294967295 - nz xs 0]).
+Proof. exact u32not_ok. Qed.
+Print Assumptions c05_u32not.
+Theorem c05_is_odd : instr_spec (ops_of "is_odd") 1 no_pre (fun xs => [nz xs 0 mod 2]).
+Proof. exact is_odd_ok. Qed.
+Print Assumptions c05_is_odd.
+Theorem c05_lt : instr_spec (ops_of "lt") 2 no_pre (fun xs => [if (nz xs 1 <? nz xs 0)%Z then 1 else 0]).
+Proof. exact lt_ok. Qed.
+Print Assumptions c05_lt.
+Theorem c05_lte : instr_spec (ops_of "lte") 2 no_pre (fun xs => [if (nz xs 1 <=? nz xs 0)%Z then 1 else 0]).
+Proof. exact lte_ok. Qed.
+Print Assumptions c05_lte.
+Theorem c05_gt : instr_spec (ops_of "gt") 2 no_pre (fun xs => [if (nz xs 0 <? nz xs 1)%Z then 1 else 0]).
+Proof. exact gt_ok. Qed.
+Print Assumptions c05_gt.
+Theorem c05_gte : instr_spec (ops_of "gte") 2 no_pre (fun xs => [if (nz xs 0 <=? nz xs 1)%Z then 1 else 0]).
+Proof. exact gte_ok. Qed.
+Print Assumptions c05_gte.
+Theorem c05_ext2mul : instr_spec (ops_of "ext2mul") 4 no_pre
+  (fun xs => let c := ext_mul (nz xs 3, nz xs 2) (nz xs 1, nz xs 0) in [snd c; fst c]).
+Proof. exact ext2mul_ok. Qed.
+Print Assumptions c05_ext2mul.
+Theorem c05_u32shl : instr_spec_g (ops_of "u32shl") 2 gsh32 no_pre (fun xs => [(nz xs 1 * 2 ^ nz xs 0) mod TWO32]).
+Proof. exact u32shl_ok. Qed.
+Print Assumptions c05_u32shl.
+Theorem c05_u32shr : instr_spec_g (ops_of "u32shr") 2 gsh32 no_pre (fun xs => [nz xs 1 / 2 ^ nz xs 0]).
+Proof. exact u32shr_ok. Qed.
+Print Assumptions c05_u32shr.
+Theorem c05_u32rotl : instr_spec_g (ops_of "u32rotl") 2 gsh32 no_pre
+  (fun xs => [(nz xs 1 * 2 ^ nz xs 0) mod TWO32 + (nz xs 1 * 2 ^ nz xs 0) / TWO32]).
+Proof. exact u32rotl_ok. Qed.
+Print Assumptions c05_u32rotl.
+Theorem c05_u32rotr : instr_spec_g (ops_of "u32rotr") 2 gsh32 no_pre
+  (fun xs => [nz xs 1 / 2 ^ nz xs 0 + (nz xs 1 mod 2 ^ nz xs 0) * 2 ^ (32 - nz xs 0)]).
+Proof. exact u32rotr_ok. Qed.
+Print Assumptions c05_u32rotr.
+Theorem c05_pow2 : instr_spec_g (ops_of "pow2") 1 g64 no_pre (fun xs => [2 ^ nz xs 0]).
+Proof. exact pow2_ok. Qed.
+Print Assumptions c05_pow2.
 
 (* non-vacuity: the generated table really contains these instructions, and a concrete stack
    meets the hypotheses *)
